@@ -55,6 +55,22 @@ def c_data_in_flight(case, obs, cinc, crash_time):
     return crash_time < delivered_by
 
 
+def task_lport(obs, task, inc):
+    """Local port of the stream of client task A / C / D of the given client incarnation, or None."""
+    for e in obs["log"]:
+        if e[0] == 1 and e[1] == inc and e[2] == task and e[3] == "connect" and e[4] == "ok":
+            return e[5]
+    return None
+
+
+def delivered_by(case, t_sent):
+    """Sim time by which a segment written by host code at sim time t_sent has been handed to its
+    destination host (see c_data_in_flight)."""
+    tick = case["cfg"]["tick_ms"] * MS
+    lat = case["cfg"]["lat_ms"] * MS
+    return (t_sent // tick + -(-lat // tick) + 1) * tick
+
+
 def fault_events(case, obs):
     """[(event index, name, victims, before, after)] of the executed crash/bounce events."""
     out = []
@@ -85,6 +101,9 @@ def victim_term(v, before, obs, unread_hint):
         for kd in kinds:
             if kd == "whole":
                 objs += ["SRead %s false false" % cp, "SWrite %s false" % cp]
+                rc += 2
+            elif kd == "whole-unread":
+                objs += ["SRead %s true false" % cp, "SWrite %s false" % cp]
                 rc += 2
             elif kd == "whole-noread":
                 objs += ["SRead %s %s false" % (cp, "true" if unread_hint else "false"), "SWrite %s false" % cp]
@@ -166,7 +185,8 @@ def compare(case, obs, model, probes):
             cobjs = [d[1:4] for d in before["hosts"][1]["objs"] if d[0] == "stream"]
             for m in msgs:
                 # m = [kind, from, lport, rhost, rport]; the client's end of that stream must be alive
-                if m[0] in (1, 2) and m[2] in PEER_TASK and [m[4], 0, m[2]] in cobjs:
+                if (m[0] in (1, 2) and m[2] in PEER_TASK and [m[4], 0, m[2]] in cobjs
+                        and task_lport(obs, PEER_TASK[m[2]], cinc) == m[4]):
                     want.setdefault(PEER_TASK[m[2]], []).append("fin" if m[0] == 1 else "rst")
             for task, kinds in want.items():
                 e = peer_end(obs, task, cinc)
